@@ -33,6 +33,7 @@ func main() {
 	Register("one", runOne)
 	Register("nat", runNat)
 	Register("heap", runHeap)
+	Register("heapsafe", runHeapSafe)
 	if len(os.Args) >= 2 && os.Args[1] == "child" {
 		childMain()
 		return
